@@ -3,11 +3,14 @@
    are mapped to their OCaml counterparts; Z / positive / N stay the extracted
    inductive types (no mapping to machine integers, no Extract Constant). *)
 From Coq Require Import Extraction ExtrOcamlBasic.
-From FP Require Import Machine SrcConsts Out Run.
+From FP Require Import Machine SrcConsts Out Run RunMore Threads.
 
 Extraction Language OCaml.
 Extraction "../ocaml/model.ml"
   dev release all_modes out_eqb
   run_dd acc_dd run_di acc_di run_id acc_id run_ii acc_ii known_K1
   run_un acc_un run_fromint acc_fromint run_fromu128 acc_fromu128
-  run_k acc_k.
+  run_k acc_k
+  run_str acc_str canon_perr known_str run_tostring acc_tostring run_roundtrip acc_roundtrip
+  run_fmt acc_fmt run_fmt_int acc_fmt_int run_tofloat acc_tofloat run_fromfloat acc_fromfloat
+  run_ratio acc_ratio run_thr acc_thr.
